@@ -533,7 +533,7 @@ def coq_case(sc):
     push = sc["cfg"].get("enable_push")
     push_local = True if push is None else bool(push)
     fin = final_of(sc)
-    case = "(%s, %s, [%s], %s)" % (role, B(push_local), ";\n    ".join(items), opt(fin))
+    case = "((%s, %s, [%s], %s) : dispatch_case)" % (role, B(push_local), ";\n    ".join(items), opt(fin))
     return case, hist, len(items), p
 
 
